@@ -300,9 +300,9 @@ def gen_plan(seed, prop, faults, nested=False):
                         'F': [[], [[]]] if cfg['fair'] else [],
                         'S0': []})
     if prop == 'C19' and rng.random() < 0.04:
-        # a long corridor: 1 200-2 500 states in a chain that ends in a
+        # a long corridor: 1 100-1 500 states in a chain that ends in a
         # self-loop (deep paths, shallow everything else); CTL queries only
-        n = rng.choice([1200, 1800, 2500])
+        n = rng.choice([1100, 1300, 1500])
         E = [[i, i + 1] for i in range(n - 1)] + [[n - 1, n - 1]]
         lab = [['p'] for _ in range(n)]
         lab[n - 1] = ['p', 'u']
